@@ -64,10 +64,18 @@ def check_tree(part, data, ub, fills):
                 if c[tid] != l + r:
                     return "node count %r for id %r is not the sum of its children's counts %r + %r" % (c[tid], tid, l, r)
     # membership / midpoints: recompute which points reach each node
+    min_cut = [int(part.cutpoint_proportion_lbound * np.ptp(data[:, a])) for a in range(m)]
+
     def walk(node, pts, depth):
         if node.axis is None:
             if node.num_samples_in_compared_subtrees["build"] != len(pts):
                 return "leaf build count %r != points in its cell %d" % (node.num_samples_in_compared_subtrees["build"], len(pts))
+            # stop rule: a cell becomes a leaf only if it is small, has few distinct values, or cannot be cut further
+            ax = depth % m
+            col = pts[:, ax]
+            cell = (col.min() + (col.max() - col.min()) / 2) - col.min() if len(pts) else 0
+            if len(pts) > ub and np.unique(pts).size > ub and cell > min_cut[ax]:
+                return "a cell with %d points and %d distinct values (count_ubound=%d) was not split" % (len(pts), np.unique(pts).size, ub)
             return None
         if len(pts) <= ub:
             return "a node holding %d <= count_ubound=%d points was split" % (len(pts), ub)
@@ -114,6 +122,9 @@ def check(scn):
     rng = np.random.RandomState(seed)
     if kind == "grid":
         data = rng.randint(0, 5, (n, m)).astype(float)
+    elif kind == "blocky":
+        # a quantised block stored first, distinct values afterwards
+        data = np.vstack([rng.randint(0, 2, (max(1, n // 2), m)).astype(float), rng.randn(n - max(1, n // 2), m)]) if n > 1 else rng.randn(n, m)
     elif kind == "dup":
         base = rng.randn(max(2, n // 3), m)
         data = base[rng.randint(0, len(base), n)]
@@ -186,7 +197,7 @@ def run(tier, seed, repo, focus=None):
                  "every node once with parent/depth/counts/KSS; non-trivial = the tree has an internal node",
                  {"seeds": 4 if quick else 25})
     known = load_known()
-    for kind in ("grid", "dup", "cont"):
+    for kind in ("grid", "dup", "cont", "blocky"):
         for m in (1, 2, 3):
             for ub in (1, 2, 3, 5):
                 for n in (1, 4, 9, 20):
